@@ -402,6 +402,11 @@ def shape_f4(case):
     return any("big" in cmd["stages"][:-2] for cmd in case["cmds"] if len(cmd["stages"]) >= 3)
 
 
+def shape_f7(case):
+    """Threaded callable alias that runs captured subprocesses itself, with $XONSH_SUBPROC_RAISE_ERROR on."""
+    return _threaded(case) and case["cfg"].get("raise", True) and any("asub" in c["stages"] for c in case["cmds"])
+
+
 def shape_f6_cmd(cmd, case):
     """Threaded callable alias inside a pipeline of >= 2 stages."""
     return _threaded(case) and len(cmd["stages"]) >= 2 and _alias_count(cmd) >= 1
@@ -446,6 +451,14 @@ def classify(case, level, group, probs, hang_cmd=None, also=()):
     if group == "std-closed" and shape_f3(case):
         if all(p.startswith(("closed sys.stdout:", "closed sys.stderr:")) for p in probs):
             return "C09-F5"
+    if shape_f7(case):
+        # the alias thread ends the *outer* pipeline (global XSH.lastcmd): PopenThread/ProcProxyThread clean-up runs off the main
+        # thread, forgets the saved handlers without restoring them; the stale handler then swallows SIGINT
+        if group == "handler" and all(p.startswith("handler ") and ("-> PopenThread._signal_" in p or p.endswith("-> ProcProxyThread._signal_int"))
+                                      for p in probs) and any("PopenThread" in p for p in probs):
+            return "C09-F7"
+        if group == "sigint" and all("surfaced as None" in p and "PopenThread._signal_int" in p for p in probs):
+            return "C09-F7"
     if group == "sigint" and "std-closed" in also and shape_f3(case):
         # a non-last alias thread died printing to the closed stream: returncode None, its SIGINT handler (F2) swallows the signal
         if all("surfaced as None" in p and "ProcProxyThread._signal_int" in p for p in probs):
@@ -823,7 +836,7 @@ def case_strategy(tier):
     from hypothesis import strategies as hs
 
     stage = hs.sampled_from(STAGE_IDS)
-    reps = hs.sampled_from([1] * 10 + [3] * 7 + [30] * 3 + ([300] if tier == "thorough" else []))
+    reps = hs.sampled_from([1] * 10 + [3] * 8 + [30] * 2 + ([300] if tier == "thorough" else []))
 
     @hs.composite
     def pipeline(draw):
@@ -855,6 +868,8 @@ def case_strategy(tier):
         r = draw(reps)
         if r == 300 and n > 2:
             r = 30
+        if r == 30 and n > 3:
+            r = 3
         return {"cfg": cfg, "cmds": cmds, "reps": r}
 
     return cases()
@@ -890,8 +905,7 @@ def _evaluate(case, st, family):
             return
         if case["reps"] > 3:
             case = dict(case, reps=3)
-    if "C09-F7" in open_ids and _threaded(case) and case["cfg"].get("raise", True) and case["reps"] > 3 and \
-            any("asub" in c["stages"] for c in case["cmds"]):
+    if "C09-F7" in open_ids and shape_f7(case) and case["reps"] > 3:
         st.excluded_known["C09-F7"] += 1
         case = dict(case, reps=3)
     if case["reps"] > 3 and (("C09-F1" in open_ids and shape_f1(case)) or ("C09-F4" in open_ids and shape_f4(case))):
@@ -1062,8 +1076,8 @@ def _committed_replays():
 
 def main(run):
     helpers.ensure()
-    nw = 8 if run.tier == "quick" else 16
-    per = run.n(110, 3200)
+    nw = int(os.environ.get("C09_WORKERS", "16"))
+    per = run.n(60, 3200)
     replays = _committed_replays()
     tasks = [("replay", (c, run.scratch)) for c in replays]
     tasks += [("grid", (i, nw, run.scratch, run.tier)) for i in range(nw)]
